@@ -188,6 +188,19 @@ impl<K: Ord + Copy, V> OrdMap<K, V> {
     pub fn values(&self) -> Values<'_, K, V> {
         Values { m: self, i: 0 }
     }
+    pub fn range<R: std::ops::RangeBounds<K>>(&self, r: R) -> std::vec::IntoIter<(&K, &V)> {
+        let mut v = Vec::new();
+        let mut i = 0;
+        while i < ORD_CAP {
+            if let Some((k, val)) = &self.items[i] {
+                if r.contains(k) {
+                    v.push((k, val));
+                }
+            }
+            i += 1;
+        }
+        v.into_iter()
+    }
     pub fn contains_key(&self, k: &K) -> bool {
         let mut i = 0;
         let mut f = false;
